@@ -127,4 +127,5 @@ def bad_times(log):
 
 def replay_case(ctx):
     import json
-    return json.load(open(ctx.replay))["case"]
+    c = json.load(open(ctx.replay))["case"]
+    return c["case"] if isinstance(c, dict) else c
